@@ -61,7 +61,15 @@ def gen(ctx, deep):
             ops.append(("removemany", "p", "p", [init[0], init[-1]]))
             ops.append(("updatemany", "p", "p", [init[0], init[1]], [init[0][:4] + ["maybe"], ["7"] + init[1][1:]]))
         ops.append(("removefiltered", "p", "p", 1, ["bob"]))
+        # environment of the ordering: an explicit clear, a reload from the (mirrored) store, the auto-build flag off and on
+        env = [("clearall", "p", "p"), ("reload", "p", "p"), ("autobuild", "p", "p", False), ("autobuild", "p", "p", True)]
         hists = [pc.interleave_reads([], reads)] if False else []
+        for o in env:
+            for b in ops[:6]:
+                hists.append(pc.interleave_reads([o, b], reads))
+        hists.append(pc.interleave_reads([("autobuild", "p", "p", False), ("reload", "p", "p")] + ops[:2], reads))
+        hists.append(pc.interleave_reads([("clearall", "p", "p")] + [("add", "p", "p", r) for r in (UNIVERSE[4], UNIVERSE[0], UNIVERSE[2])], reads))
+        ops = ops + env
         hists.append(list(reads))
         for o in ops:
             hists.append(pc.interleave_reads([o], reads))
